@@ -12,6 +12,7 @@ from runner import Opts, run_many
 
 PKG = "nampk"
 MODSEGS = ["my_mod", "mod_a_b", "modA", "plain", "trail_", "two__under"]
+RESEGS = ["data_sets", "plots", "a_first"]      # packages whose stubs hold re-exported declarations
 
 
 def skeleton(stubs: Stubs) -> dict:
@@ -79,6 +80,15 @@ def main(v: Verdict) -> None:
     files["minherit.py"] = "\n\n".join(inh) or "X = 1\n"
     for seg in MODSEGS:
         files[f"{seg}.py"] = "def inmod() -> int:\n    ...\n"
+    # packages that receive re-exported declarations: one whose path changes under conversion, handled before one whose path does not
+    files["core/__init__.py"] = ""
+    files["core/_shared.py"] = "def re_fn() -> int:\n    ...\n\n\nclass ReCls:\n    pass\n\n\nclass ReOther:\n    pass\n"
+    files["data_sets/__init__.py"] = f"from {PKG}.core._shared import re_fn\n"
+    files["data_sets/fill.py"] = "def fill_a() -> int:\n    ...\n"
+    files["plots/__init__.py"] = f"from {PKG}.core._shared import ReCls\n"
+    files["plots/fill.py"] = "def fill_b() -> int:\n    ...\n"
+    files["a_first/__init__.py"] = f"from {PKG}.core._shared import ReOther\n"
+    files["a_first/fill.py"] = "def fill_c() -> int:\n    ...\n"
     pkg = write_pkg(files, PKG)
     r_off, r_on = run_many([{"src": pkg, "opts": Opts(docstyle="NUMPYDOC", nc=False), "timeout": 600},
                             {"src": pkg, "opts": Opts(docstyle="NUMPYDOC", nc=True), "timeout": 600}])
@@ -135,7 +145,7 @@ def main(v: Verdict) -> None:
             obs.append({"id": f"{pos}:{n}", "kind": "decl", "obs": {
                 "pos": pos, "py": n, "missingOff": a is None, "missingOn": b is None,
                 "shownOff": a[0] if a else "", "annotatedOff": bool(a[1]) if a else False,
-                "shownOn": b[0] if b else "", "annotatedOn": bool(b[1]) if b else False}})
+                "shownOn": b[0] if b else "", "annotatedOn": bool(b[1]) if b else False, "annotationOn": n if (b and b[1]) else ""}})
 
         for n in pub:
             add("class", "mcls", n)
@@ -153,7 +163,17 @@ def main(v: Verdict) -> None:
             obs.append({"id": f"module:{seg}", "kind": "decl", "obs": {
                 "pos": "module", "py": f"{PKG}.{seg}", "missingOff": not off, "missingOn": not on,
                 "shownOff": off[0].package if off else "", "annotatedOff": bool(off and off[0].pymodule),
-                "shownOn": on[0].package if on else "", "annotatedOn": bool(on and on[0].pymodule)}})
+                "shownOn": on[0].package if on else "", "annotatedOn": bool(on and on[0].pymodule), "annotationOn": on[0].pymodule if on else ""}})
+        # the stubs of re-exported declarations: found by their place in the output tree
+        for seg in RESEGS:
+            pick = lambda st: [f for rel, f in sorted(st.files.items()) if rel.startswith(f"{PKG}/{seg}/") and rel.count("/") == 2]  # noqa: E731
+            off, on = pick(s_off), pick(s_on)
+            for j in range(max(len(off), len(on), 1)):
+                fo, fn = (off[j] if j < len(off) else None), (on[j] if j < len(on) else None)
+                obs.append({"id": f"reexport-package:{seg}:{j}", "kind": "decl", "obs": {
+                    "pos": "module", "py": f"{PKG}.{seg}", "missingOff": fo is None, "missingOn": fn is None,
+                    "shownOff": fo.package if fo else "", "annotatedOff": bool(fo and fo.pymodule),
+                    "shownOn": fn.package if fn else "", "annotatedOn": bool(fn and fn.pymodule), "annotationOn": fn.pymodule if fn else ""}})
         if s_off.errors or s_on.errors:
             v.extra["unparsable_stubs"] = {"off": list(s_off.errors.items())[:5], "on": list(s_on.errors.items())[:5]}
         k_off, k_on = skeleton(s_off), skeleton(s_on)
